@@ -7,7 +7,7 @@ common header (tokens 1..):  F K N D rule uniform G  grp[N] slice[N] s[N]
   N = number of observations (all leading indices together), `slice n < F` its leading index,
   `grp n < G` its weight-tying group, rule 0 = mean / 1 = unitNorm, uniform 1 = weights fixed to 1/K.
 then per operation:
-  gmm-sph / gmm-diag : y[N*D] weight[K*N] mean[F*K*D] var[F*K] | var[F*K*D]
+  gmm-sph / gmm-diag / gmm-full : y[N*D] weight[K*N] mean[F*K*D] var[F*K] | var[F*K*D] | cov[F*K*D*D]
   watson             : y[N*D cx] weight[K*N] mode[K*D cx] kappa[K] lognorm[K]                 (F = 1)
   cacg               : nrm floor  z[N*D cx] weight[K*N] vecs[K*D*D cx] vals[K*D]               (F = 1)
 output: groups separated by " | " :
@@ -59,6 +59,32 @@ def eighJacobi {D : Nat} (m : Tab D (Tab D CF)) : Tab D (Tab D CF) × Tab D Floa
   let r := Num.eigh D (toMat m)
   (tab2 fun i j => let c := r.2.get i.val j.val; (⟨c.re, c.im⟩ : CF), tab fun e => r.1[e.val]!)
 
+/-- sklearn's `_compute_precision_cholesky(cov, 'full')` and `_compute_log_det_cholesky` on `Float`: Cholesky
+`Σ = L Lᵀ`, `P = L⁻ᵀ` (upper triangular, `P Pᵀ = Σ⁻¹`), `ℓ = Σ_d log P_dd` (driver-side numerics, external of the model) -/
+def pcholFloat {D : Nat} (cov : Tab D (Tab D Float)) : Tab D (Tab D Float) × Float := Id.run do
+  let c : Array (Array Float) := Array.ofFn (n := D) fun i => Array.ofFn (n := D) fun j => rd2 cov i j
+  let mut L : Array (Array Float) := Array.replicate D (Array.replicate D 0.0)
+  for i in [0:D] do
+    for j in [0:i+1] do
+      let mut sum := (c[i]!)[j]!
+      for k in [0:j] do
+        sum := sum - (L[i]!)[k]! * (L[j]!)[k]!
+      if i == j then
+        L := L.set! i ((L[i]!).set! j (Float.sqrt sum))
+      else
+        L := L.set! i ((L[i]!).set! j (sum / (L[j]!)[j]!))
+  let mut M : Array (Array Float) := Array.replicate D (Array.replicate D 0.0)
+  for col in [0:D] do
+    for i in [col:D] do
+      let mut sum := if i == col then 1.0 else 0.0
+      for k in [col:i] do
+        sum := sum - (L[i]!)[k]! * (M[k]!)[col]!
+      M := M.set! i ((M[i]!).set! col (sum / (L[i]!)[i]!))
+  let mut ell := 0.0
+  for d in [0:D] do
+    ell := ell + Float.log ((M[d]!)[d]!)
+  return (tab2 fun e d => (M[d.val]!)[e.val]!, ell)
+
 def opsEm (a : Array String) : Option String :=
   let h := hdr a
   match h.K, h.F with
@@ -105,6 +131,23 @@ def opsEm (a : Array String) : Option String :=
       let vars := (List.finRange (F' + 1)).flatMap fun f => (List.finRange (K' + 1)).flatMap fun k =>
         (List.finRange D).map fun d => rd (rd (θ'.c k) f).var d
       some (out ++ " | " ++ fmtFloats means ++ " | " ++ fmtFloats vars)
+    | "gmm-full" =>
+      let yv : Tab N (Tab D Float) := tab2 fun n d => fl a o (n.val * D + d.val)
+      let yT : Tab N (Fin (F' + 1) × (Fin D → Float)) := tab fun n => (rd sl n, rd (rd yv n))
+      let ow := o + N * D
+      let om := ow + (K' + 1) * N
+      let ov := om + (F' + 1) * (K' + 1) * D
+      let fam := sliced (F := F' + 1) (fullFamily D (pcholFloat (D := D)) tinyE log2piE)
+      let θ : Mixture (Tab (F' + 1) (FullG Float D)) Float (K' + 1) N :=
+        ⟨tab2 fun k n => fl a ow (k.val * N + n.val),
+         tab fun k => tab fun f => ⟨tab fun d => fl a om ((f.val * (K' + 1) + k.val) * D + d.val),
+                                    tab2 fun d e => fl a ov (((f.val * (K' + 1) + k.val) * D + d.val) * D + e.val)⟩⟩
+      let (out, θ') := stepCommon fam h tie s (rd yT) θ
+      let means := (List.finRange (F' + 1)).flatMap fun f => (List.finRange (K' + 1)).flatMap fun k =>
+        (List.finRange D).map fun d => rd (rd (θ'.c k) f).mean d
+      let covs := (List.finRange (F' + 1)).flatMap fun f => (List.finRange (K' + 1)).flatMap fun k =>
+        (List.finRange D).flatMap fun d => (List.finRange D).map fun e => rd2 (rd (θ'.c k) f).cov d e
+      some (out ++ " | " ++ fmtFloats means ++ " | " ++ fmtFloats covs)
     | "watson" =>
       let yT : Tab N (Tab D CF) := tab2 fun n d => cx a o (n.val * D + d.val)
       let y : Fin N → Fin D → CF := fun n => rd (rd yT n)
